@@ -4,6 +4,7 @@ CONSTANTS
     NH = 2
     MaxR = 2
     MaxFault = 1
+    MaxBreak = 1
     TrackFiles = FALSE
     Extras = FALSE
     SymBreak = TRUE
